@@ -38,7 +38,11 @@ def run(tier, seed, replay=None):
     prove_info, problems = ({}, [])
     if os.path.exists(os.path.join(C.LEAN, "HexVerif", "Properties", "C06.lean")):
         rep.level = "proof"
+        import rtl_common
+        ok_tr, tr_txt = rtl_common.regenerate()     # the RTL model is re-translated from the current tree
         prove_info, problems = C.prove(PID, ["HexVerif.Properties.C06"], allow_bv_decide=True)
+        if not ok_tr:
+            problems.append("translator refused the current Verilog: " + tr_txt[-300:])
     tools = c14.build_tools()
     exe = T.build_htb()
     r = C.Rng(seed)
